@@ -217,6 +217,7 @@ func c13Occurrence(c *vrep.Ctx) {
 			near = cl.NearestMatch(strings.Join(k1.toks, nm.sep))
 		})
 		msg := ""
+		onlyMisaligned := false
 		switch {
 		case p != "":
 			msg = "panic: " + p
@@ -248,6 +249,21 @@ func c13Occurrence(c *vrep.Ctx) {
 					got = append(got, fmt.Sprintf("%s conf=%v off=%d ext=%d", m.Name, m.Confidence, m.Offset, m.Extent))
 				}
 				msg = fmt.Sprintf("MultipleMatch did not report the value with Confidence 1.0 at Offset %d Extent %d; got %v", at, len(normK), got)
+				// mechanism of the recorded finding (glued copies): nothing else is wrong, and every
+				// report of K1 covers the copy and stays within the blank-delimited tokens enclosing it
+				onlyMisaligned = checkMatches(ms, normU, ts[ti]) == "" && near != nil && near.Name == "K1" && near.Confidence == 1.0
+				lo, hi := at, at+len(normK)
+				for lo > 0 && normU[lo-1] != ' ' && normU[lo-1] != '\n' {
+					lo--
+				}
+				for hi < len(normU) && normU[hi] != ' ' && normU[hi] != '\n' {
+					hi++
+				}
+				for _, m := range ms {
+					if m.Name == "K1" && !(m.Offset >= lo && m.Offset <= at && m.Offset+m.Extent >= at+len(normK) && m.Offset+m.Extent <= hi) {
+						onlyMisaligned = false
+					}
+				}
 			} else if m := checkMatches(ms, normU, ts[ti]); m != "" {
 				msg = m
 			} else if near == nil || near.Name != "K1" || near.Confidence != 1.0 {
@@ -268,7 +284,7 @@ func c13Occurrence(c *vrep.Ctx) {
 			last, _ := utf8.DecodeLastRuneInString(normK)
 			aligned = aligned && (isB(next) || isB(last))
 		}
-		r.Note = map[string]interface{}{"id": id, "msg": msg, "fam": fam, "k1": k1.text(), "aligned": aligned}
+		r.Note = map[string]interface{}{"id": id, "msg": msg, "fam": fam, "k1": k1.text(), "aligned": aligned, "onlyMisaligned": onlyMisaligned}
 	}
 	c.Run(vSplitExplorer(c, 0, 2), body, func(r *vx.Run) {
 		if r.Note["skip"] != nil {
@@ -282,7 +298,7 @@ func c13Occurrence(c *vrep.Ctx) {
 		}
 		if m := r.Note["msg"].(string); m != "" {
 			key := "c13:" + strings.ReplaceAll(id, " ", "_")
-			if r.Note["fam"].(int) == 2 && !r.Note["aligned"].(bool) {
+			if r.Note["fam"].(int) == 2 && !r.Note["aligned"].(bool) && r.Note["onlyMisaligned"].(bool) {
 				key = "c13:class:glued-occurrence-not-token-aligned"
 			}
 			c.Violate(key, id+": "+m, r, m)
